@@ -26,21 +26,25 @@ func init() {
 			"the bytes are read back by a TSPLIB reader written from the format description and compared entry by entry with the weight function, every call of weights is recorded and must satisfy 0 <= j < i < n. " +
 			"fault plane: W = number of Write calls of the fault-free run of (n, weights); for EVERY position p in 0..W-1 and each mode in {permanent error from p on, transient error at p only, short count with error at p, short count with nil error at p (recorded, not judged)} LIB is re-run with that fault and must return a non-nil error; " +
 			"one event record per injected run goes to an event log and the verdicts are re-derived offline from the log alone (which also verifies that no position is missing). thorough adds real files under strace write(2) error injection (ENOSPC at the k-th write syscall, once and from k on). " +
-			"non-trivial = injected run whose fault position lies inside the weight section (a write made by the text/tabwriter flush); distinct by construction (n, weights, mode, position)",
+			"non-trivial = injected run whose faulted write covers bytes of the weight section (or is the zero-length write of its flush), or a healthy call that follows a failed one; distinct by construction (n, weights, writer, mode, position)",
 		Assumptions: []string{
 			"oracle: TSPLIB reader written from the TSPLIB 95 description (harness code, self-checked on hand-written documents and 21 corrupted ones)",
 			"integers are read with strconv.ParseInt (base 10, 64 bit); rows are the lines of the weight section, numbers separated by blanks, any alignment",
 			"a write 'fails' when Write returns a non-nil error (with or without a short count); a short count with a nil error is a contract violation of the writer and is recorded, not judged",
-			"section of a fault position = byte range of that write in the fault-free output relative to the EDGE_WEIGHT_SECTION line and the EOF line",
+			"section of a fault position = byte range of that write in the fault-free output relative to the EDGE_WEIGHT_SECTION line and the EOF line (a write may cover several parts)",
+			"bytes of LIB that sit in a caller-supplied *bufio.Writer when LIB returns are the caller's to flush: only device failures that happened before LIB returned are judged; a short count with nil error below bufio is recorded only (bufio retries after a direct write)",
+			"a weights function that panics: the panic may propagate or be turned into an error; only a nil error is a violation",
 			"thorough: strace >= 5 with -e inject and -P path filtering; one write(2) per Write call on an *os.File (checked by a control run with the fault beyond the last write)",
 		},
 		Run:            run,
 		Finish:         finish,
-		MinEvaluations: map[string]int{"quick": 15000, "thorough": 400000},
-		MinNontrivial:  map[string]int{"quick": 15000, "thorough": 400000},
+		MinEvaluations: map[string]int{"quick": 4000, "thorough": 10000},
+		MinNontrivial:  map[string]int{"quick": 2500, "thorough": 6000},
 		RequiredObs: []string{"clean_runs", "weight_calls", "fault_runs:permanent", "fault_runs:transient", "fault_runs:short-error", "fault_runs:short-nil-error",
-			"offline:records_judged", "offline:bases_complete", "section:header", "section:weights", "section:trailer",
-			"sampled:fault_runs:permanent", "sampled:fault_runs:transient", "sampled:fault_runs:short-error", "sampled:fault_runs:short-nil-error", "offline:sampled:records_judged"},
+			"offline:records_judged", "offline:bases_complete", "covered:header", "covered:weights", "covered:trailer",
+			"sampled:fault_runs:permanent", "sampled:fault_runs:transient", "sampled:fault_runs:short-error", "sampled:fault_runs:short-nil-error", "offline:sampled:records_judged",
+			"wtype_bases", "offline:wtype:records_judged", "wtype:fault-free:os.File", "wtype:fault-free:bytes.Buffer", "wtype:pipe_runs", "wtype:fault_runs:bufio:permanent", "wtype:fault_runs:stringwriter:transient",
+			"seq:healthy_calls_checked", "seq:calls:weights-panic:after-start", "seq:calls:healthy:after-transient", "seq:concatenations_on_one_bytes.Buffer"},
 	})
 }
 
@@ -240,6 +244,13 @@ type event struct {
 	Header string      `json:"header,omitempty"` // the bytes before the weight section
 	Modes  []string    `json:"modes,omitempty"`  // modes enumerated over all positions for this base
 	Plan   *samplePlan `json:"plan,omitempty"`   // sampled plane ("sbase"): which positions are injected
+	// writer-type plane ("wbase"/"wfault", writers.go)
+	ID       string `json:"id,omitempty"`
+	Kind     string `json:"kind,omitempty"`
+	DRet     int    `json:"device_calls_before_return,omitempty"`
+	Hit      bool   `json:"hit_before_return,omitempty"` // the fault fired in a device call made before LIB returned
+	Converts bool   `json:"converts_short_nil,omitempty"`
+	Pending  int    `json:"pending,omitempty"` // bytes in the caller's buffer when LIB returned
 	// fault
 	Fault    *faultDesc `json:"fault,omitempty"`
 	Fired    bool       `json:"fired,omitempty"`
@@ -308,7 +319,8 @@ func faultPlane(c *engine.Ctx, n int, fam string, rs uint64, fk string) {
 			c.Emit(stream, ev)
 			c.Obs("fault_runs:"+mode, 1)
 			c.Obs("section:"+sect, 1)
-			if sect == "weights" {
+			obsCovered(c.Obs, "covered:", sect)
+			if coversWeights(sect) {
 				c.NTDistinct(1)
 			}
 			if w.writesAfter > 0 && mode == modePermanent {
@@ -442,6 +454,10 @@ func run(c *engine.Ctx) {
 	// SAMPLED fault positions (sampled.go).
 	sampledUnits(c)
 
+	// 2c. writer types (writers.go) and sequences of calls (sequences.go)
+	typeUnits(c)
+	seqUnits(c)
+
 	// 3. thorough: real files under strace write(2) error injection.
 	if c.Thorough() {
 		for _, n := range []int{1, 2, 3, 5, 7, 0} {
@@ -469,7 +485,7 @@ func finish(s *engine.Super) {
 		seen map[string][]bool
 	}
 	bases := map[string]*baseInfo{}
-	var faults, sbases, sfaults []event
+	var faults, sbases, sfaults, wbases, wfaults []event
 	bad, nBase := 0, 0
 	s.EachLine(stream, func(line []byte) {
 		var ev event
@@ -503,6 +519,10 @@ func finish(s *engine.Super) {
 			sbases = append(sbases, ev)
 		case "sfault":
 			sfaults = append(sfaults, ev)
+		case "wbase":
+			wbases = append(wbases, ev)
+		case "wfault":
+			wfaults = append(wfaults, ev)
 		default:
 			bad++
 		}
@@ -563,7 +583,7 @@ func finish(s *engine.Super) {
 			s.Violation(violKey(ev.Fault.Mode, loc), ev, fmt.Sprintf("LIB returned nil although write %d failed (%d of %d bytes reached the writer)", ev.Fault.Pos, ev.Got, bi.ev.Bytes), "a non-nil error")
 		}
 	}
-	s.AddEval(judged + sampledFinish(s, sbases, sfaults))
+	s.AddEval(judged + sampledFinish(s, sbases, sfaults) + typeFinish(s, wbases, wfaults))
 	s.AddObs("offline:records_judged", judged)
 	s.AddObs("offline:verdicts_violated", int64(viol))
 	// completeness: every position of every mode of every base
